@@ -8,218 +8,344 @@ VERIF = os.path.dirname(os.path.dirname(os.path.abspath(__file__)))
 # pid -> (technique, level text, level note)   -- only checks that exist in checks/ are claimed
 REG = {
     "C04": (
-        "explicit-state BFS to fixpoint over the real ATP_Store (engine A), per-transition ledger oracle",
-        "Every operation of a ~110-op alphabet is applied to the real store in every reachable canonical state "
-        "(balances, debt, metabolic state of a main and a peer store) for 17-26 small configurations until no new "
-        "state appears; exact-charging / free-failure / no-overdraft / capacity / no-energy-creation constraints are "
-        "checked on every transition, which by induction gives the bounded-total-spend clause for histories of any "
-        "length over the alphabet.",
-        "amounts from {0,1,2,3,4,5}, capacities <= 5, regeneration thread disabled; canonical state drops monotone "
-        "audit counters (their deltas are checked per transition)",
+        "explicit-state BFS to fixpoint over the real ATP_Store with a peer store (engine A), per-transition ledger oracle",
+        "168 operations (consume over amounts {0,1,2,3,5,1000} x 3 currencies x allow_debt x priorities, regenerate, transfers both "
+        "ways and to self, convert, dormancy, interest, reset, observe, peer operations) are applied to the real stores in every "
+        "reachable canonical state (atp, gtp, nadh, debt, metabolic state of main and peer) of 25 roots in quick (more in thorough): "
+        "capacity configurations plus roots with silent=False, a recording on_state_change, debt_interest=0 and a peer with GTP/NADH "
+        "capacity; run until no new state appears, so the clauses hold for histories of any length over the alphabet. Per transition, "
+        "from public observations: no raise, balances >= 0, debt <= max_debt, successful consume => net worth -cost and total_consumed "
+        "+cost, failed consume free, regenerate neither exceeds capacity nor creates energy, transfer/convert create none, reset "
+        "restores the initial state; bounded total spend follows by induction. Roots with non-zero interest (unbounded state space): "
+        "depth 4 (thorough 6).",
+        "regeneration_rate=0 (no timer thread); capacities <= 5; on_state_change is a benign recording callback and silent=False "
+        "text is not judged; the canonical state drops monotone audit counters (their deltas are checked per transition); the "
+        "bounded-spend clause rests on the per-transition constraints, not on a longest-path computation over the graph",
     ),
     "C05": (
-        "stateless schedule enumeration with iterative preemption bounding over real threads (engine C), "
-        "linearizability oracle = the implementation run sequentially in every call order",
-        "9 curated harnesses (thorough 14, incl. real BioAgent.express calls sharing a store) plus a systematic family "
-        "of all 55 unordered pairs of operation kinds, each 2-3 real threads x 1-2 ATP_Store calls on tiny shared "
-        "stores, are run under a controlled scheduler where every source line of metabolism.py (thorough: every "
-        "bytecode on 4 harnesses) is a scheduling point and the store lock is a scheduler-aware lock; every schedule "
-        "with <= 2 (quick) / 3 (thorough) preemptions is executed to completion and its outcome (all return values, "
-        "final balances/debt/state) must be produced by some sequential order of the same calls run on the "
-        "implementation itself; deadlock (and a call that would hang even sequentially) is a detected state.",
-        "CoopLock has threading.Lock semantics; atomicity of a single bytecode under the GIL is trusted; "
-        "free-threaded builds are out of scope",
+        "schedule enumeration with preemption bounding over real threads (engine C); linearizability oracle = the implementation "
+        "run sequentially in every call order, plus observer-side ledger clauses",
+        "222 harnesses in quick: 13 curated collisions (incl. two real BioAgent.express calls sharing a store, opposite transfers "
+        "under both lock-rank orders, under-funded three-store rings) and all unordered pairs of operation kinds from several start "
+        "states - P (10 kinds), G (14 kinds: three currencies, debt carried, silent=False, state-change callback, getters), D "
+        "(starving/dormant, priorities), X (raising callback), I (apply_debt_interest, advisory). Thorough adds the other curated "
+        "harnesses, funded rings, 35 three-thread multisets and bytecode granularity on 4 harnesses. Every line of metabolism.py and "
+        "every lock acquisition is a scheduling point; every schedule with <= 2 preemptions (G: 1) in quick, <= 3 (G, rings, triples: "
+        "2) in thorough runs to completion. Oracle: the outcome (return values, final balances/debt/state, notifications) is produced "
+        "by some sequential order of the same calls; balances never negative at any point, debt within its limit, successful spends "
+        "<= available wealth, no deadlock, livelock or escaping exception.",
+        "PointLock/CoopLock has threading.Lock/RLock semantics; atomicity of a single bytecode under the GIL is trusted; "
+        "free-threaded builds out of scope; the regeneration thread is modelled as an explicit regenerate() thread. Counted, not "
+        "asserted: intermediate values read by lock-free getters, apply_debt_interest outcomes. An outcome that needs a split "
+        "transfer is keyed nonatomic-transfer (recorded as fixed, so it fails the run)",
     ),
     "C07": (
-        "bounded-exhaustive enumeration of the full gate-logic x verdict-pair table on the real run() (engine D) + "
-        "explicit-state BFS to fixpoint over cache histories (engine A)",
-        "All 6 gate logics x 11x11 executor/assessor verdicts (the 7 of the property + 4 unknown spellings, incl. raising "
-        "agents) x cache on/off x 8 prompts are run through the real CoherentFeedForwardLoop.run with stub agents bound "
-        "to the built-in agents by a differential re-run; a reference table written from the statement decides "
-        "'may pass'; token issuer/hash/only-when-assessor-permitted are checked on every cell; run/advance/clear "
-        "histories over two near-identical prompts are explored to fixpoint for cache consistency.",
-        "stub agents stand in for BioAgent (bound by 36 real-agent scenarios); truncated-md5 cache-key collisions are not explorable",
+        "bounded-exhaustive enumeration of gate logic x answer pair x options x prompts on the real run() (engine D) + "
+        "explicit-state BFS to fixpoint over cache histories under a virtual clock (engine A)",
+        "All 6 gate logics x 20x20 executor/assessor answers (the 7 of the property, 6 more unknown spellings, 4 more exception kinds, "
+        "3 non-verdict returns) x 24 option tuples (cache on/off, TTL {300,0,1e12}, breaker off/(5,60 s)/(1,0 s), silent off + "
+        "callbacks + timeout_seconds=0) x 8 prompts (quick: non-base tuples on one prompt); three run() calls per cell (answer; "
+        "opposite verdicts; after the TTL). Further families: 9x9 payload/confidence shapes; ~30 near-miss variants (case, whitespace, "
+        "Unicode forms, invisible characters) of 4 prompts on one caching loop; base cells after history prefixes + clock advance / "
+        "clear_cache / reset_circuit_breaker. Engine A: run/advance/clear histories over two prompts differing by a trailing space, "
+        "to fixpoint. Oracle (one-directional): not blocked => reference table from the statement; token => assessor PERMIT, hash is "
+        "a sha256 prefix of exactly this prompt, issuer = assessor; a reply given without consulting an agent equals the original "
+        "reply of the same prompt.",
+        "stub agents stand in for BioAgent: every verdict pair witnessed on the built-in agents is re-run with stubs and must agree; "
+        "MAJORITY over two agents is read as 'both permit'; a blocked token-less reply without agent consultation while the breaker "
+        "is enabled counts as a breaker refusal (C08); truncated-md5 cache-key collisions not explorable; re-evaluation of expired "
+        "entries and callback arguments are not asserted",
     ),
     "C08": (
-        "explicit-state BFS to fixpoint over request-outcome / clock-advance / reset histories under a virtual clock "
-        "(engine A), constraint oracle",
-        "For thresholds 1-4 (thorough 1-5) x breaker on/off x cache on/off every history of {success, assessor BLOCK, "
-        "executor BLOCK, executor FAILURE, executor raises, assessor raises, cached repeat, clock advances below/at/above "
-        "the recovery timeout, manual reset} is explored to fixpoint on the real loop under a substituted clock; the "
-        "oracle is the set of constraints in the statement (never opens early, open after threshold consecutive failures, "
-        "isolation while open, probe after timeout, close/re-open, blocks neutral, disabled => always consulted).",
-        "default AND gate logic only; stub agents spend energy like BioAgent and are bound by 7 real-agent scenarios; "
-        "clock owned through the module-global datetime/time names of loops.py",
+        "explicit-state BFS to fixpoint over request-outcome / cache-repeat / clock-advance / reset histories under a virtual "
+        "clock (engine A); constraint oracle with observer-derived request roles",
+        "112 configurations in quick: thresholds 1-4 (thorough 1-5) x breaker on/off x cache on/off x 8 option variants (thorough 13: "
+        "UNANIMOUS, silent off, callbacks, recovery timeout 0/10/60 s, cache TTL 0 / 5 s / none, sibling loop, re-sent rejected "
+        "prompts, combinations). Events: request on a fresh prompt with each of 13 executor/assessor answer pairs (success, BLOCKs, "
+        "executor FAILURE, raising agents of three exception classes), repeat of a cached or of a rejected prompt, clear_cache, "
+        "getters, clock advance 0.4R/0.6R/R-1us/R/1.5R, reset, request to a second loop; explored to fixpoint. The oracle keeps its "
+        "own mode from observed outcomes and the reference clock: open after threshold consecutive failures, never before threshold "
+        "in total; while open and elapsed < R every request is CIRCUIT_OPEN with no agent call and no budget change; the first "
+        "agent-reaching request after R is the probe; probe success closes, probe failure restarts isolation; BLOCKs and cache hits "
+        "are neutral; a disabled breaker never refuses; reset closes.",
+        "AND gate logic and its synonym UNANIMOUS only; failure = agent exception or executor FAILURE verdict (FAILURE + assessor "
+        "BLOCK left out); 'consecutive' read weakly; the one choice the statement leaves open (opening between threshold-in-total "
+        "and threshold-consecutive) is read off the reported state; stubs spend 10 ATP like BioAgent and are bound by real-agent "
+        "scenarios; toggling the breaker after construction and threshold <= 0 not explored",
     ),
     "C10": (
-        "bounded-exhaustive input enumeration from automatically derived signature witnesses x perturbations (engine D) "
-        "+ explicit-state BFS over membrane histories under a virtual clock (engine A)",
-        "Witness strings are derived from the re-parser tree of every built-in / custom / learned / imported signature of "
-        "both gates (every alternation branch, minimal and doubled repetitions) and run under every case/embedding/"
-        "control-character perturbation, every threshold, all shipped validators and ~85 hostile inputs (lone surrogates, "
-        "100k+ lengths, 50k-deep JSON, 5000-digit numbers) against an independent reference matcher that is cross-checked "
-        "with re.search; filter/learn/forget/add/set_threshold/export-import/clock-advance histories of two membranes are "
-        "explored to depth 5 (quick) / 7 (thorough) against a reference of active signatures, blocked inputs and the "
-        "rate window (stay-blocked-forever, rate limit per window, audit +1 per decision, no raise).",
-        "characters with non-1:1 case folds are don't-care; truncated-sha256 replay-memory collisions not explorable; "
-        "regex back-tracking latency is an observation, not a verdict",
+        "bounded-exhaustive inputs from automatically derived signature witnesses x perturbations against an independent reference "
+        "matcher (engine D) + explicit-state BFS over membrane and innate-gate histories under a virtual clock (engine A)",
+        "Witnesses are derived from the sre parse tree of every built-in / generated custom / learned / imported signature of both "
+        "gates (each alternation branch, minimal and 2x repetitions), perturbed (case, embedding with 3 separators, control "
+        "characters, lone surrogates, 100k+ lengths) and run on fresh gates for every threshold x installation channel x 18 validator "
+        "sets, plus hostile structural inputs (deep JSON, 5000-digit numbers); repeated with all other options non-default. Engine A: "
+        "two membranes over filter (8 inputs) / learn / forget / add_signature / set_threshold / export-import / clear_audit_log / "
+        "clock advance {1,59,61} s, rate_limit {None,0,1,2}, depth 5 (thorough 6, core alphabet 7); two innate gates over check / "
+        "add_pattern / add_validator / reset_inflammation / clock advance, depth 5 (6). Oracle: allowed => no active signature >= "
+        "threshold matches and no validator must reject; scan decisions report the exact matched set and its maximum level; a "
+        "scan-blocked input stays blocked under perturbation and forever after; <= rate_limit admitted per 60 s window; audit +1 per "
+        "filter; nothing raises.",
+        "the reference matcher is cross-checked against re.compile(p, re.I).search on every pair (disagreement = harness error); "
+        "characters with non-1:1 case folds are don't-care; replay-memory hash collisions not explorable; 'maximum over matched' is "
+        "asserted for scan decisions only; the validator reference is one-directional; raising callbacks are not asserted; regex "
+        "back-tracking latency is not a verdict",
     ),
     "C12": (
-        "bounded-exhaustive enumeration of templates x contexts against an independent single-pass reference renderer (engine D)",
-        "Every template of <=3 (quick) / <=4 (thorough) segments over the documented grammar (up to 88 segment kinds: plain/"
-        "optional/defaulted/filtered variables, if/else, each-loops with item/index/first/last/dict keys, includes to depth "
-        "3, unknown includes) x 11 value classes x strict/non-strict is rendered by the real Ribosome and compared with a "
-        "recursive-descent single-pass renderer written from the statement (phase 1: delimiter-free values; phase 2: "
-        "every bound value / loop item / dict field / default replaced by each active payload, opacity oracle). "
-        "Re-interpretation through a channel that is clean today (simple variables, cross-segment) is a plain violation; "
-        "the 25 channel x construct pairs that the multi-pass design re-interprets are listed as known findings.",
-        "nested blocks and includes inside blocks are outside the quantifier's grammar; text emitted for an unbound plain "
-        "variable is not judged",
+        "bounded-exhaustive enumeration of templates x contexts against an independent single-pass reference renderer (engine D), "
+        "opacity oracle over payload slots",
+        "Templates are sequences of segment kinds of the documented grammar at three alphabet levels (full 88 kinds, std 30, core 12): "
+        "quick uses full for <= 1 segment, std for 2, core for 3; thorough full for <= 2, std for 3, core for 4. Kinds: text, plain / "
+        "optional / defaulted / filtered variables, if/else, each-loops with item/index/first/last/dict keys, includes to 3 levels "
+        "and unknown; contexts v over 13 values x w; strict and non-strict. Phase 1: output equals the reference, needed unbound "
+        "variables are warned about, strict raises when a needed plain variable is unbound and not when everything referenced is "
+        "bound. Phase 2: one slot at a time (bound value, loop item, dict field, second variable, default literal, literal text, "
+        "custom-filter result) carries each of 13 payloads (every construct, a half-open brace, private-use characters) and the "
+        "output must contain it verbatim; phase 2u the same with the payload's names unbound. Shadow family (loop-special names as "
+        "dict keys / outer variables) and api family (translate(mRNA), by name after re-registration, second instances).",
+        "blocks are non-nested and block bodies hold only text and plain variables (the quantifier's grammar); text emitted for an "
+        "unbound plain/filtered variable, each over a non-list and raising custom filters are not judged; "
+        "reinterpreted:default-literal:include is the one known finding, any other channel x construct pair is a violation",
     ),
     "C01": (
-        "bounded-exhaustive enumeration of forbidden AST probes x evaluation contexts x pathways x tool sets, the whole "
-        "builtins/math/operator name universe under an audit hook, hostile strings, and a magnitude alphabet in "
-        "resource-limited child processes (engine D)",
-        "58 probe instances covering all 15 forbidden ast.expr classes of the running interpreter are placed at the root "
-        "and in every strict hole of every allowed context of depth <=2 (thorough 3) and run on all 5 pathways x 4 tool "
-        "sets: a success or a tool side effect is a witnessed confinement breach; 459 names x 7 call shapes run under "
-        "sys.addaudithook + canaries + a signature table for dangerous builtins; 128 hostile strings x both silent "
-        "settings and ROS-latch histories must always return a MetabolicResult; 16 (thorough 63) size-parametrised "
-        "expressions run in forked children under RLIMIT_CPU/RLIMIT_AS with a CPU-time deadline 6x the configured "
-        "timeout. The never-enforced timeout is a known finding keyed by the first heavy primitive.",
-        "non-str inputs, non-UTF-8 stdout encodings and tool bodies (user code) are out of scope; depth-3 innermost "
-        "level uses 16 representatives (full product at depth 2)",
+        "bounded-exhaustive input enumeration on the real Mitochondria (engine D): forbidden-AST probes x contexts x pathways x tool "
+        "sets, name universe under an audit hook, configuration product; resource clause in forked children under kernel limits",
+        "Probes for every forbidden ast.expr class of the running interpreter (Dict/Set as literal-only) sit at the root and in every "
+        "strict hole of the allowed contexts of depth <= 2 (thorough 3, innermost level by representatives) on 5 pathways x 4 tool "
+        "sets; ~460 builtins/math/operator names x 7 call shapes x 9 placements run under sys.addaudithook, canaries and a "
+        "dangerous-builtin table. Totality: 128 hostile strings, multi-byte characters and lone surrogates at offsets 0..71 (thorough "
+        "0..135), awkward-result expressions, both silent settings, every pathway and digest_glucose; the product timeout_seconds x "
+        "max_ros x silent x allowed_capabilities x registration route, tool answers (every builtin Exception class) and every prefix "
+        "of <= 2 public operations. Oracle: forbidden probe => failure result, no tool body run; never raises; a string a fresh "
+        "engine refuses is not accepted after a history. A magnitude alphabet (16 base expressions in quick) x timeout values runs "
+        "in forked children under RLIMIT_AS 4 GiB and RLIMIT_CPU = max(3 s, 6 x timeout): killed = never returned. ROS-latch "
+        "histories to depth 30.",
+        "only str inputs, default recursion limit, strict UTF-8 stdout; tool bodies are user code (only whether they run is judged); "
+        "operator classes outside the documented table and unvetted accepted names are observed, not judged; the never-enforced "
+        "timeout is the known finding unbounded:{Pow-int, factorial, Mult-seq, sum-concat}; for timeouts whose 6x multiple exceeds "
+        "30 s (or inf/nan) an overrun is noted only",
     ),
     "C02": (
-        "bounded-exhaustive enumeration of the allowed expression grammar against Python's own eval as reference (engine D), "
-        "value-class reduction validated exhaustively",
-        "Every depth-1 expression over 16 leaves, every depth-2 (thorough depth-3) expression built from value-class "
-        "representatives, every member of a class in every depth-1 context (validation of the reduction), plus the "
-        "text-sensitive front end (trigger substrings in names/strings/operators) unreduced, are evaluated on the auto, "
-        "math, logic and transform pathways; engine success => value and type equal Python's (bool-coerced on the logic "
-        "pathway); Python raises => engine failure.",
-        "operand magnitudes bounded so evaluation is cheap; pow accepted as math.pow or builtins.pow; sign of zero not judged",
+        "bounded-exhaustive enumeration of expression texts of the allowed grammar against Python's own eval (engine D); value-class "
+        "reduction validated exhaustively; history independence in fresh forked processes",
+        "Layers, each enumerated completely: F1 every constructor over 16 leaves (depth 1); P2 depth 2 with >= 1 child a value-class "
+        "representative (type, exact value | exception class) of the depth-1 layer; P3 (thorough) likewise at depth 3; VAL every "
+        "non-representative member in every depth-1 context, compared with its representative; FE trigger-string expressions ('True', "
+        "' or ', '<', '[' ...) unreduced in every observing context; NM names Python cannot resolve (true / false / unbound); TV "
+        "lexical variants; TOOL tool-call arguments. Each text runs on the auto, math, logic and transform pathways in a per-text "
+        "permuted order. HIST: the FE/NM/TV texts and a depth-1 layer on 12 (thorough 24) pathway orders x 3 instance patterns, each "
+        "sequence in a newly forked process, every evaluation judged. Oracle, one-directional: engine success => value and type equal "
+        "Python's over names fetched independently from builtins/math (bool-coerced on the logic pathway); Python raises => engine "
+        "reports failure.",
+        "engine failure where Python succeeds is only counted (also when history-dependent); lowercase true/false are aliases on the "
+        "logic and transform pathways only; operand magnitudes bounded so evaluation is cheap; pow accepted as math.pow or "
+        "builtins.pow; sign of zero not compared; the reduction is validated in depth-1 contexts, not proven for deeper layers",
     ),
     "C03": (
-        "explicit-state BFS to fixpoint over registration / re-registration / call histories (engine A) + stateless "
-        "choice-point search over a scripted adversarial LLM provider (engine B)",
-        "Allowed sets {None, {}, {NET}, {NET,READ_FS}} x 13 tool declaration styles x requirement sets; operations: engulf/"
-        "register/re-register, metabolize over 9 text shapes x 5 pathways, execute_tool_call, scripted "
-        "Nucleus.transcribe_with_tools loops whose every round is a choice point; each tool body counts its invocations: "
-        "a disallowed tool's counter never moves and the entry point reports failure.",
-        "quick bounds the provider tree to 3 deviations (thorough unbounded); tools declaring both capability attributes "
-        "and string-valued capabilities are not modelled",
+        "explicit-state BFS to fixpoint over registration / call histories (engine A) + choice-point search over a scripted LLM "
+        "provider (engine B) + flat exhaustive family over options, declaration forms and history prefixes (engine D)",
+        "Allowed sets {None, {}, {NET}, {NET,READ_FS}} x 13 declaration styles x tools t0,t1 (thorough t2). Engine A: engulf / "
+        "register / re-register, metabolize over text shapes x 5 pathways, execute_tool_call and scripted LLM loops in every "
+        "reachable canonical state (depth bound 4, thorough 5; fixpoint reached). Engine B: every provider answer sequence (stop / t0 / "
+        "t1 / unknown / two tools per round) after every registration prefix, <= 3 deviations in quick, unbounded in thorough. Engine "
+        "D: constructor options (silent, timeout_seconds, max_ros, allowed-set container, tools=) x up to 40 declaration forms x every "
+        "entry point incl. digest_glucose, and histories 'declare A, prefix (call to the same or another name, introspection, repair, "
+        "another engine sharing the name or tool object), re-register as B, judged request' replayed without state merging (quick: "
+        "one option off its default at a time). Oracle: a tool whose declared requirement is not a subset of the allowed set never "
+        "has its body counter move - also a replaced tool object - and the request is reported as a failure.",
+        "max_ros=1e9 so the ROS latch never engages; not modelled or asserted: a tool declaring different requirements in its two "
+        "attributes, in-place change of a declaration or of the allowed set after registration, direct writes to the public tools "
+        "dict; allowed tools actually running is a non-vacuity outcome, not a verdict",
     ),
     "C09": (
-        "explicit-state BFS over lifecycle operation histories under a virtual clock with a scheduler-aware lock that turns "
-        "a self-deadlock into an observable result (engine A)",
-        "24 (thorough 120) configurations x all histories to depth 6 (7) over {start, tick(c), record_error, heartbeat, "
-        "check_timeouts, renew, trigger_apoptosis, terminate, reset, clock advance}; oracle: legal transition relation "
-        "observed through the callback stream and get_phase, absorbing/dead phases, tick result <=> ACTIVE afterwards, "
-        "length bounds, Hayflick bound between renewals, renew refusals, forced senescence, every call returns "
-        "(HangDetected instead of a timeout).",
-        "CoopLock mirrors Lock/RLock semantics; idle limit judged with the most generous notion of activity",
+        "explicit-state BFS over lifecycle histories on the real Telomere under a virtual clock, with a scheduler-aware lock that "
+        "turns a self-deadlock into an observable result (engine A)",
+        "112 configurations in quick (more in thorough): max_operations {0,1,3,12} (thorough also 2,5), error_threshold, renewal "
+        "on/off, lifetime and idle limits off / 1 h,10 min / 0.25 h,2.5 min, callbacks both/none/one, silent on/off. Family 0 "
+        "(notifications subscribed) to depth 6 (thorough 7), family 1 (other callback / silent / limit combinations) to depth 5 (6). "
+        "Alphabet: start, tick(c in {0,1,2,max}), record_error, heartbeat, check_timeouts, renew(amount in {None,0,1,max,max+5}, "
+        "reset_errors), trigger_apoptosis, terminate, reset, clock advance {5,10,60} min; two bystander lifecycles live in the "
+        "process. Oracle: every observed phase move is in the legal relation; TERMINATED absorbing, APOPTOTIC/TERMINATED ticks False; "
+        "tick True <=> ACTIVE afterwards; 0 <= length <= max; unit ticks True since the last renew <= max_operations; renew refused "
+        "when disallowed or TERMINATED; error threshold / elapsed limit => SENESCENT; every call returns (HangDetected instead of a "
+        "timeout); nothing is visible on another instance. Depth-bounded, no fixpoint.",
+        "CoopLock mirrors Lock/RLock semantics; idle limit judged with the most generous notion of activity (only 'limit elapsed => "
+        "SENESCENT'); without a subscribed callback a phase pair is judged by existence of a legal move sequence; reset() is "
+        "re-initialisation, compared with a fresh object; renew while APOPTOTIC returning True with the phase unchanged is not judged",
     ),
     "C11": (
-        "bounded-exhaustive enumeration of schemas x instances x corruption-operator sequences x strategy orders (engine D)",
-        "6 schemas x 49 instances with hazard strings x every sequence of <=2 (thorough 3) corruption operators x all 64 "
-        "strategy orders (6 orders at the longest length, reduction checked on every all-orders input) x fold / "
-        "fold_enhanced: valid => schema instance that re-validates with provenance in the raw text; invalid => no "
-        "structure + error trace; clean JSON => STRICT, confidence 1.0, json.loads values; plain and enhanced agree; "
-        "nothing raises; REPAIR results on syntactic-only corruptions equal the original instance.",
-        "provenance search is one raw_decode per '{' position (complete for object schemas)",
+        "bounded-exhaustive enumeration of schemas x instances x corruption-operator sequences x strategy orders x {fold, "
+        "fold_enhanced} against json.loads / pydantic model_validate (engine D)",
+        "10 schemas (typed / optional / defaulted / nested, aliased + constrained + extra=forbid with odd validator exceptions, "
+        "recursive, all-defaults) x instances over hazard-string alphabets x every sequence of <= 2 (thorough 3) corruption operators; "
+        "each raw text is folded by both entry points under the default order, the empty list, all 64 non-empty ordered strategy "
+        "subsets and 16 orders with a repeated strategy (longest sequences: a reduced order set, justified by a checked order-reduction "
+        "prediction). Plus degenerate raw texts, an escape-hazard x repair-target string product, three non-default validator "
+        "configurations and repeats of the default fold after other orders / a twin schema / on a second object. Oracle: valid => "
+        "schema instance that re-validates; invalid => no structure + non-empty error_trace; clean JSON with STRICT first => STRICT, "
+        "1.0, json.loads values; fold and fold_enhanced agree; confidence 1.0 only for STRICT (decided from the calls); nothing "
+        "raises; provenance per strategy; REPAIR of a purely syntactic corruption equals the original data; repeats equal the first "
+        "answer.",
+        "json.loads and pydantic are the trusted reference; provenance search is brute force over JSON objects starting at each '{' "
+        "(all schemas are object schemas); REPAIR provenance is judged only for purely syntactic corruptions of known data; the empty "
+        "strategy list gets only the order-independent clauses; quick uses a reduced hazard alphabet",
     ),
     "C13": (
-        "explicit-state BFS over waste-handling histories with per-item conservation accounting (engine A) + schedule "
-        "enumeration with preemption bounding over two real threads (engine C)",
-        "18 configurations x histories to depth 7 (thorough 10, fixpoint) over {ingest of each type, ingest_error, "
-        "ingest_sensitive, digest(k), autophagy, daemon prune, clock advance} with digester behaviour folded into the "
-        "alphabet; every item carries a unique id and must at all times be exactly one of queued / digested / reported "
-        "error / emergency-dropped / expired; queue bound, sensitive-item clauses; 53 (thorough 1813) two-thread "
-        "harnesses at line granularity, preemption bound 2 (3), deadlock = detected state.",
-        "harness digesters stand in for the built-in ones; more than 2 threads and bytecode granularity not explored",
+        "explicit-state BFS over waste-handling histories with per-item conservation accounting and a hang-detecting lock (engine A) + "
+        "schedule enumeration with preemption bounding over two real threads (engine C)",
+        "Engine A: 87 configurations in quick (max_queue_size {2,3,4,8} x auto_digest_threshold {1,2,3,8}, retention 60/30/0 min, "
+        "digester registry custom/partial/builtin, silent on/off), histories to depth 7 (thorough 10) over ingest of each type x "
+        "digester answer (dict, {}, None, 0, non-dict, raise with/without message, re-entering ingest), ingest_error, "
+        "ingest_sensitive x on_toxic answer, daemon prune, digest(None/0/1/2/9), autophagy, clock advance, clear_recycling_bin, a "
+        "second instance. Every item has a unique id and is always exactly one of queued / digested / reported error / "
+        "emergency-dropped / expired; queue <= max_queue_size; sensitive items never recycled, on_toxic at most once and exactly once "
+        "if digested; every call returns (HangDetected otherwise). Engine C: 49 two-thread harnesses in quick (all unordered pairs of "
+        "single operations from 6 kinds on two configurations at bound 2; 7 curated at bound 1, four also 2); thorough: those at "
+        "bound 3, pairs of two-operation programs at bound 1; every line of lysosome.py is a scheduling point, deadlock = detected.",
+        "CoopLock has Lock/RLock semantics; harness digesters stand in for the built-in ones (types without one are observed through "
+        "counters only); the path of an item (digest / auto-digest / emergency) is derived from the public call; an expired sensitive "
+        "item disposed of without callback is by design; more than 2 threads, bytecode granularity and re-entering ingest at capacity "
+        "not explored",
     ),
     "C16": (
-        "bounded-exhaustive enumeration of port-type pairs, wiring diagrams and run-time label combinations against a "
-        "Kahn-scheduling reference (engine D)",
-        "All 21x21 port-type pairs through connect(); every diagram of <=3 (thorough 4) modules with every wire subset, "
-        "handler subset and external-input assignment within the port bounds; chains/fan-out/joins over all label tuples x "
-        "handler result kinds x external kinds x enforce_static_checks; oracle: acceptance rule, every module once after "
-        "its feeders, delivered values have port type and sufficient integrity, contradictory handler outputs rejected, "
-        "unschedulable diagrams raise WiringError (sweep counter bounds the run), capabilities = union.",
-        "ordering clause asserted for completed runs; total port counts bounded as stated in evidence",
+        "bounded-exhaustive enumeration of port-type pairs, wiring diagrams, run-time labels, capability sets and wire / execution "
+        "histories against a Kahn-scheduling reference (engine D)",
+        "(a) all 21x21 (data type, integrity) pairs through connect() and can_flow_to(), plus unknown names; (b) every diagram of <= 3 "
+        "modules (thorough 4) with 0..2 in / 0..2 out ports each within total-port bounds, every set of attempted wires, every subset "
+        "of modules lacking a handler, every external-input assignment incl. wired-and-external; (c) chain / fan-out / join shapes x "
+        "label tuples x handler result kinds (falsy payloads, wrong type, lower / higher label) x external kinds; (d) capability "
+        "subsets, repeated calls; (e) small diagrams x every wire sequence x two executions with a mutation in between "
+        "(re-registration, fresh executor, one more connect). (b), (c), (e) run with enforce_static_checks True and False. Oracle: "
+        "accepted <=> same type and rank(src) >= rank(dst); schedulable and consistent => every handler once, after its feeders, with "
+        "correctly typed and sufficiently trusted inputs, topological execution_order; otherwise WiringError with no handler run "
+        "twice or with a missing input; capabilities = union. A sweep counter (2n+4) makes non-termination a finite failure.",
+        "(b) uses one uniform port type (type checks and scheduling assumed independent, re-checked on (c)); the ordering clause is "
+        "asserted for completed runs only; handlers are pure and never raise; enforce_static_checks is read as a redundant delivery "
+        "re-check and no clause depends on it; after a diagram mutation only a newly built executor is judged; which handler "
+        "generation runs after re-registration is not asserted",
     ),
     "C17": (
-        "bounded-exhaustive enumeration of fingerprints around every baseline bound, Treg rule sets and training windows "
-        "(engine D) + explicit-state BFS over ImmuneSystem histories under a virtual clock (engine A)",
-        "Real TCell.inspect over the product of per-bound positions x anergy x streak x manual flag; all threat level x "
-        "action x 625 rule sets x 12 records through RegulatoryTCell.evaluate; every training window of length 2-3 over a "
-        "24-observation alphabet then inspect; ImmuneSystem histories to depth 5 (6) from 7 roots: CONFIRMED/CRITICAL "
-        "only with baseline violation + second signal, in-baseline => no threat, anergic => silent, Treg lowers at most "
-        "one step and never touches CRITICAL, no threat right after training.",
-        "finite moderate floats only; a failed canary counts as both signals (weaker reading)",
+        "bounded-exhaustive enumeration of fingerprints around every baseline bound, Treg rule sets and training windows (engine D) + "
+        "explicit-state BFS over bare-TCell (to fixpoint), ImmuneSystem and two-agent histories under a virtual clock (engine A)",
+        "D-tcell: TCell.inspect over per-bound positions of 2 (thorough 5) trained profiles x manual flag x streak position x anergy. "
+        "D-treg: all threat level x action responses x 625 rule sets x tolerance records (stability threshold 0/1/3) x spellings of "
+        "the condition answer x rule duration, on fresh objects and through one shared Treg. D-train: every observation window of "
+        "length 2-3 (thorough + multisets of 4) over a 32-observation alphabet (thorough 48) x canary histories x 5 system shapes x "
+        "Thymus tolerances, then inspect. T: all histories of inspect / flag_manually / reset / reset_without_confirmation on a bare "
+        "TCell, to fixpoint. A: ImmuneSystem histories to depth 5 (6); X: a second agent, or a same-named agent in a second system, "
+        "carrying flags / streaks / memories, depth 4 (5). Oracle, one-directional, with streak, flag and dismissed false alarms "
+        "tracked from the call history: CONFIRMED/CRITICAL or isolate/shutdown => baseline violated and a second signal; strictly "
+        "inside => NONE/IGNORE; anergic => NONE/IGNORE; Treg never raises an action, lowers by at most one step, leaves CRITICAL "
+        "unchanged; POSITIVE training => the next inspect is NONE.",
+        "finite moderate floats only; values within 1e-9 of a bound take the weaker reading on both sides; a failed canary counts as "
+        "baseline violation and second signal at once; a bare TCell has no immune memory; fingerprint hash collisions, "
+        "ImmuneMemory.prune_old / import_signatures and TCells built with preset counters not explored; A and X are depth-bounded",
     ),
     "C18": (
-        "stateless choice-point search over every generator / worker / provider behaviour sequence (engine B)",
-        "Generator output kind, worker factory/step behaviour, summariser and provider round are choice points; for all "
-        "limits 0..3 (thorough 0..4) every answer sequence is executed on the real ChaperoneLoop, RegenerativeSwarm and "
-        "Nucleus.transcribe_with_tools; call budgets, error-context threading (numbered misfolds), HEALED/VALID => "
-        "schema-valid structure, DEGRADED tagging, success => completion marker, tool rounds <= max_iterations + one final "
-        "completion; a runaway loop becomes a finite counterexample through the chooser horizon.",
-        "thorough bounds the two largest configurations to 5 / 3 deviations (stated in evidence caps_hit)",
+        "stateless choice-point search over every generator / worker / summariser / provider / tool answer sequence (engine B), "
+        "deviation-bounded on the large trees",
+        "Choice points on the real ChaperoneLoop, RegenerativeSwarm and Nucleus.transcribe_with_tools: generator {valid, junk, "
+        "schema-invalid, echo of the error context, '', 'null', same as before, raise}; worker factory {worker, raise}; step {fresh "
+        "junk, repeat, '', marker, raise}; summariser {hints, [], None, stock default, raise}; provider round {no calls, one, two, "
+        "unknown tool, empty id/arguments, same calls as before, raise}; tool and completion outcomes; every raise in four flavours. "
+        "Budgets 0..3 (thorough 0..4) for max_retries, max_regenerations x max_steps_per_worker and max_iterations, plus limits "
+        "omitted, crossed with option variants (non-default options, empty-error chaperones, second call on the same objects, sibling "
+        "instance first, re-registered tools, empty prompt). Small configurations: complete answer tree; the others (142 of 399 in "
+        "quick): all sequences with <= 3 (thorough 4; two-call variants 2) non-default answers. A loop asking for more than budget+2 "
+        "answers is cut and reported. Oracle: call counts within budget (also when an exception propagates), each retry carries the "
+        "previous error, HEALED/VALID => schema instance, DEGRADED tagging, success => marker, provider calls <= max_iterations + 1.",
+        "not exhaustive on the deviation-bounded configurations (listed in evidence caps_hit); error threading is checked with a "
+        "Chaperone subclass that numbers its misfold errors (the stock trace is constant); with an empty-error chaperone a "
+        "context-free retry is only noted; the tool's exception flavour is fixed per configuration; environment exceptions may "
+        "propagate (the statement bounds calls, not exception handling)",
     ),
     "C20": (
-        "explicit-state BFS over configuration histories on a genome lineage against a reference dict + approval predicate "
+        "explicit-state BFS over configuration histories on a live Genome lineage against a reference dict + approval predicate "
         "(engine A) + exhaustive express() sweep (engine D)",
-        "Lineages of up to 3 genomes sharing a recording approval callback; profiles deep (11 ops/genome, depth 5-8) and "
-        "wide (~45 ops/genome, depth 2-3) over allow_mutations x 5 callback behaviours; unauthorised operations change no "
-        "value/hash anywhere in the lineage and log exactly one unapproved entry, authorised ones change exactly one gene "
-        "in one genome, replicate never alters the parent, rollback restores the preceding value; express() swept over "
-        "every type triple x level triple x context subset.",
-        "mutation_rate 0; in-place mutation of list values obtained from get_gene() is out of scope",
+        "Lineages of up to 3 genomes created by replicate(), sharing one recording approval callback. Profiles: deep (11 ops/genome; "
+        "lineage <= 2 to depth 5, thorough 8; lineage <= 3 to depth 4, thorough 5), wide (~44 ops/genome, depth 2, thorough 3), x "
+        "(depth 3, thorough 4, on roots varying one or two otherwise fixed dimensions: callback answers truthy / falsy non-bools, "
+        "None, raising, consultation-count dependent; falsy and dict values; an unrelated mutable genome; silent=False; add_gene / "
+        "from_dict construction; mutation_rate=1 under a refusing authority), over allow_mutations x callback behaviours. Oracle: a "
+        "change is authorised iff mutations are enabled or the callback approves exactly (gene, value); unauthorised operations leave "
+        "every value, export()['genes'] and get_hash() of every genome of the lineage unchanged and log exactly one unapproved entry; "
+        "authorised ones change exactly that gene in that genome; replicate never alters the parent; rollback restores the preceding "
+        "value. Sweep: every gene-type triple x expression-level triple x context subset through express() against the reference "
+        "filter. Depth-bounded (the state space is not finite).",
+        "mutation_rate 0 except the refusing-authority roots; allow_mutations / on_mutation not reassigned after construction; "
+        "in-place mutation of a list/dict value obtained from get_gene() is out of scope; a refused re-add is not logged (observed, "
+        "not asserted); for a callback that refuses by raising only 'nothing changes, nothing logged as approved' is asserted; "
+        "authorised changes other than rollback need not succeed",
     ),
     "C06": (
-        "bounded-exhaustive enumeration of ballot multisets x strategy configurations on the real run_vote against an "
-        "exact integer reference, with every edge of the ballot graph checked for monotonicity (engine D)",
-        "Electorates n<=5 (thorough 7) over 15 voter kinds and n<=3 (4) over the full 39-kind alphabet (permit/block x "
-        "weight x confidence grids incl. 0, EXECUTE, abstain, defer, FAILURE, raising agent, unknown verdict, malformed "
-        "confidence) x 72 (86) configurations of the seven strategies, thresholds, min_voters and EmergencyQuorum; stub "
-        "agents are placed in the real colony; oracle: counts equal the ballot, reached <=> PERMIT, no permit vote => not "
-        "PERMIT, unanimous permit with min voters => PERMIT, any block defeats UNANIMOUS, exact criteria where documented, "
-        "and on every edge (block->permit, weight/confidence one grid step up, add a non-voter) PERMIT is never lost / "
-        "non-voters never add support; permutation symmetry validated on all orderings for small n.",
-        "'PERMIT only if criterion' asserted one-directionally; BAYESIAN and emergency get the universal clauses only",
+        "bounded-exhaustive enumeration of ballot multisets x voting configurations through the real run_vote against an exact "
+        "integer / rational reference; monotonicity on every ballot-graph edge; differential against other construction roads (engine D)",
+        "Multisets of voter kinds: REDUCED alphabet (15 kinds) for n <= 5 (thorough 7); FULL (51 kinds: permit/block x weight "
+        "{0,1/2,1,2} x confidence {0,1/4,5/16,1}, EXECUTE, abstain, defer, FAILURE, raising, unknown verdict, malformed confidence, 12 "
+        "odd-but-legal answers) for n <= 3; PLAIN (39 kinds) for n <= 4 in thorough; x 104 (thorough 110) configurations: 7 strategies "
+        "x default / 1/4 / 3/4 thresholds, counts 1..n, colony shares, min_voters 0..3, EmergencyQuorum default and shares. Oracle: "
+        "counts equal the ballot; reached <=> PERMIT; no permit vote => not PERMIT; PERMIT => min_voters met and the stated criterion "
+        "(exact arithmetic), for shares permits >= share x colony and >= 1; unanimous supported permits => PERMIT; any block defeats "
+        "UNANIMOUS; on every edge (block->permit, weight / confidence one grid step up) PERMIT is never lost and an added non-voter "
+        "never creates PERMIT. Small ballots re-run through 17 other roads (mutators, constructor options, earlier votes, "
+        "reliability scores) must decide like the fresh object. The multiset reduction is validated on all orderings at smaller sizes.",
+        "'PERMIT only if criterion' is one-directional (over-blocking only counted); BAYESIAN and the default count THRESHOLD get the "
+        "universal clauses only; WEIGHTED / CONFIDENCE accept either documented weighting reading; supermajority read as > 0.66 (no "
+        "explored ratio lies in [0.66, 2/3)); fractional thresholds drawn from (0,1); reliability scores after "
+        "update_all_reliability are read back from the public field, not modelled",
     ),
     "C14": (
-        "stateless choice-point search with a fault injected at every callback / controller step incl. external endings "
-        "(engine B) + differential follow-up histories (engine A)",
-        "Request lists over 1..3 resources incl. repeats x holder configurations (free / held, preemptable or not) x "
-        "priorities; every checkpoint / work / validate answer and every external ending (watchdog kill under a virtual "
-        "clock, manual kill, shutdown) at every step is a choice point, <=1 (thorough 2) injected faults; on return no "
-        "resource is owned by the operation, it is not active, unobtained resources are untouched, work ran at most once "
-        "while holding everything, validation only after work, success only if both succeeded; then arbitrary further "
-        "operations (depth 2/3) must behave as on a system where the operation never existed.",
-        "waiting_list residue and the priority boost kept after maintenance are not judged",
+        "stateless choice-point search with faults and external endings injected at every callback, between-steps point and lock step "
+        "(engine B) + differential follow-up BFS against a twin system (engine A)",
+        "Scenarios: driver (execute_operation, IntegratedCell.execute, manual API) x request list over r1..r3 of length 0..3 with "
+        "repeats (quick: one per renaming class, 9 of 40; thorough also all 40 on the plain variant) x priority {0,5,9} x validate "
+        "present/absent x per requested resource {free, held by a priority-0 / priority-9 holder} x preemptable x system variants "
+        "(watchdog limits, a history on the same id, cell options). Choice points: checkpoint {default, false, None, 0, truthy "
+        "non-bool, raise, empty-message raise, StopIteration, external ending}, work_fn and validate_fn likewise, nested preemptor; "
+        "for the one-shot drivers every try_acquire / release the library issues {ending right before / right after} x {kill, "
+        "watchdog under a virtual clock, shutdown}; <= 1 (thorough 2) non-default answers per run. Oracle whenever an ending or the "
+        "driver returns: the operation owns no registered resource and is not active; unobtained resources keep their pre-call "
+        "(owner, hold_count, priority); work ran at most once holding everything; validation only after work; success only if both "
+        "succeeded. Further operations to depth 2 (3) from every final state must match a twin system on which the operation never ran.",
+        "single-threaded: endings reach a one-shot operation only from its callbacks or lock steps (ProbeLock, a ResourceLock subclass "
+        "registered publicly); liveness at an ending is decided from the call history; a lock granted inside the interrupted "
+        "try_acquire is judged at driver return only; waiting_list residue and holder priority boosts are not judged; system variants "
+        "are not all crossed with each other",
     ),
     "C15": (
-        "explicit-state BFS over acquire/release/complete/abort/watchdog histories against a reference wait-for graph "
-        "recomputed from the history and current owners (engine A)",
-        "2-3 operations x 2-3 resources with and without preemption, four plans to depth 6/5/4/5 (thorough 8/8/6/6) incl. a "
-        "pre-positioned contention root; check_deadlock() is non-None exactly when the reference graph has a cycle, reported "
-        "members are live and really wait on each other; after watchdog.execute() the victim is the lowest-priority / oldest "
-        "member, owns nothing, is not active, and the cycle is gone.",
-        "a BLOCKED requester is read as still waiting across a release and re-acquisition by someone else; priority boosts "
-        "and watchdog timeouts not in the alphabet",
+        "explicit-state BFS over acquire / release / complete / abort / watchdog histories against a wait-for graph recomputed from the "
+        "results of public calls only (engine A)",
+        "Seven plans: 2 operations x 3 resources to depth 7 (pre-deadlocked root 6), 3 x 2 to depth 6, 3 x 3 incl. each-holds-one, "
+        "3-cycle and two-overlapping-cycle prefixes to depth 5; thorough 8 / 7 / 8 / 6 with extra roots. Alphabet: start (restart of a "
+        "finished id), acquire incl. re-entrant and pre-empting, release (also by a non-owner), release_all, complete, abort, "
+        "watchdog.execute for both victim strategies on two long-lived watchdogs; per root a late register(resource) and "
+        "PriorityInheritance check_and_boost / clear_all. Roots vary priorities (ties, a negative one), start instants, the preemptible "
+        "subset, watchdog timeout options and watchdog_exempt. After every transition on the real CellCycleController: "
+        "check_deadlock() is non-None <=> the reference graph has a cycle; reported agents are live and every reported (waiter, "
+        "blocking, resource) is a reference edge; asking twice and stats()['pending_deadlocks'] agree; after watchdog.execute() "
+        "exactly the reported cycle loses its lowest-priority / oldest member, which owns nothing and is no longer active. "
+        "Depth-bounded; no fixpoint claimed.",
+        "a BLOCKED requester is read as waiting until it obtains the resource or ends, also across release and re-acquisition by a "
+        "third operation; after a boost the victim must be minimal under the started or the boosted priority, ties accept any tied "
+        "member; firing watchdog timeouts, advance() and re-registration of an owned resource are outside the alphabet",
     ),
     "C19": (
-        "stateless choice-point search over every checkpoint / processor / error-handler answer x static pipeline shape (engine B)",
-        "Pipelines of 1..3 (thorough 4, and 5 with <=3 deviations) stages x every static shape (checkpoint / handler present, "
-        "required, amplification 1/2/150) x both halt_on_failure settings; checkpoint answers true/false/raise/None, "
-        "processor value/raise, handler recovery/raise are choice points taken only when the callback is invoked; plus the "
-        "MAPK preset; oracle from the invocation log with identical signal objects: a processor runs only after its "
-        "checkpoint passed that same signal, nothing runs after a blocked / failed required stage when halting, success "
-        "<=> all stages completed in order with the composed output, no output otherwise, clamped amplification product.",
-        "amplification factors below 1 excluded; run_parallel and raising completion hooks outside the statement",
+        "stateless choice-point search over every checkpoint / processor / error-handler answer (engine B) x exhaustively enumerated "
+        "static shapes, options, construction paths and history prefixes",
+        "Pipelines of 1..3 stages (thorough 4, and 5 with <= 3 deviations) x every static shape (checkpoint present, handler present, "
+        "required, amplification 1/2/150) x both halt_on_failure settings on the real Cascade.run; answers, asked only when the "
+        "callback is really invoked, come from a family per class: checkpoint true {True,1,'x',[0]}, false {False,None,0,'',[]}, "
+        "raise {message, ValueError(), AssertionError(), StopIteration(), KeyError(''), empty-str and falsy exceptions}; processor and "
+        "handler value / falsy-but-valid value / raise (widened families on the shorter pipelines). Crossed with one or two "
+        "non-default options (silent, mode, max_amplification, hooks, stage names, timeout_seconds, input signal), the construction "
+        "path (add / insert / decoy) and history prefixes (earlier run, shared stage objects, run_parallel, run before add_stage / "
+        "remove_stage), the judged run compared with a fresh object; plus the MAPK preset. Oracle from the invocation log with "
+        "identical signal objects: a processor runs only after its checkpoint returned true for that same signal; nothing runs after "
+        "a blocked / failed required stage when halting; success <=> all stages completed in order with the composed output, no "
+        "output otherwise; clamped amplification product.",
+        "amplification factors and max_amplification >= 1 only; callbacks raise Exception subclasses and completion hooks return "
+        "normally; run_parallel appears only as a history prefix; 'nothing later runs' is asserted for required stages (a non-halting "
+        "blocked optional stage would be an observation); the reported factor of a recovered stage is not fixed by the statement",
     ),
 }
 
